@@ -72,10 +72,32 @@
 (* declarations keep the source class of the CPPFile they were read with;  *)
 (* a #pragma once file already in _parsed_files is not read again, so a    *)
 (* wrong class at the first reach is never corrected.                      *)
+(*                                                                         *)
+(* PART 4 - include chains.  main.h (named on the command line) includes   *)
+(* "d1/f1.h", which includes "d2/f2.h" (depth 3 only), whose last file     *)
+(* includes "sib.h".  Every intermediate file exists in exactly one place, *)
+(* given by the WAY its link is found: relative to the working directory,  *)
+(* next to its includer (also spelled "dk/../dk/fk.h"), through -I, -S, a  *)
+(* -I directory that is a symbolic link, or a -I directory spelled         *)
+(* "link/.." through a symbolic link.  "sib.h" exists in any subset of:    *)
+(* the working directory, main.h's directory, the directory of its         *)
+(* includer (RDIR), the directory one gets by reading the includer's name  *)
+(* AS REFERENCED relative to the working directory (REFDIR), I1, S1, I2.   *)
+(* REFERENCE: at every depth "the including file's directory" is the       *)
+(* RESOLVED directory of that file, however the file was itself found;     *)
+(* order cwd, includer's directory, -I/-S in command-line order; a -I/-S   *)
+(* directory denotes what the operating system says it denotes.            *)
+(* MECHANISM: find_include takes get_file()._filename.get_dirname()        *)
+(* (IncluderDirResolved; FALSE documents the deviation "dirname of         *)
+(* _filename_as_referenced", which agrees only for files found relative to *)
+(* the working directory); interrogate resolves the option directories     *)
+(* with make_canonical() (OptDirsPhysical; FALSE = the code before         *)
+(* c17-fix-4, make_absolute(), which collapses "link/.." textually).       *)
 (***************************************************************************)
 EXTENDS Naturals, Sequences, FiniteSets, TLC
 
 CONSTANTS EmptyAnglePathIsCwd, ExplicitByCanonical, KeyByCanonical, LookupCanonical,
+          IncluderDirResolved, OptDirsPhysical,
           MaxIncludes      \* bound of part 2
 
 OptDirs == {"I1", "S1", "I2", "S2"}
@@ -92,6 +114,10 @@ CmdSpells == {"plain", "symlink", "dots"}
 Reaches == {"incPlain", "incDot", "incDotDot", "Iplain", "Isymlink", "Idotdot"}
 Orders == {"AB", "BA"}
 NoOwn == [cmdSpell |-> "none", reach |-> "none", order |-> "none", cwdHas |-> FALSE]
+\* part 4
+Ways == {"cwd", "incdir", "dotdot", "I", "S", "Ilink", "Ilinkdd"}
+LeafPlaces == {"CWD", "MAIN", "RDIR", "REFDIR", "I1", "S1", "I2"}
+NoChain == [ways |-> <<>>, cmd |-> <<>>, leafAt |-> {}, level |-> 0]
 
 VARIABLES
   present, cmd, form, noangles, incIsCwd, explicit, explicitViaLink,   \* the case (part 1)
@@ -100,10 +126,11 @@ VARIABLES
   guard, spelled,             \* part 2: protection of the file, spellings included so far
   parsed, pragma, defined,    \* mechanism: keys in _parsed_files, keys with _pragma_once, guard macro defined
   mcount, rcount,             \* contributions counted by mechanism / reference (part 3: database entries)
-  own                         \* part 3: the case [cmdSpell, reach, order, cwdHas] (NoOwn elsewhere)
+  own,                        \* part 3: the case [cmdSpell, reach, order, cwdHas] (NoOwn elsewhere)
+  chain                       \* part 4: the case [ways, cmd, leafAt] and the depth reached (NoChain elsewhere)
 
 vars == <<present, cmd, form, noangles, incIsCwd, explicit, explicitViaLink, phase, rres, mres,
-          guard, spelled, parsed, pragma, defined, mcount, rcount, own>>
+          guard, spelled, parsed, pragma, defined, mcount, rcount, own, chain>>
 
 Range(s) == {s[i] : i \in 1..Len(s)}
 
@@ -182,14 +209,14 @@ InitCase ==
   /\ (explicit = "inc" => ~incIsCwd)
   /\ phase = "case" /\ rres = NotFound /\ mres = NotFound
   /\ guard = "none" /\ spelled = <<>> /\ parsed = {} /\ pragma = {} /\ defined = FALSE
-  /\ mcount = 0 /\ rcount = 0 /\ own = NoOwn
+  /\ mcount = 0 /\ rcount = 0 /\ own = NoOwn /\ chain = NoChain
 
 Resolve ==
   /\ phase = "case"
   /\ rres' = Norm(Ref) /\ mres' = Norm(Mech)
   /\ phase' = "resolved"
   /\ UNCHANGED <<present, cmd, form, noangles, incIsCwd, explicit, explicitViaLink,
-                 guard, spelled, parsed, pragma, defined, mcount, rcount, own>>
+                 guard, spelled, parsed, pragma, defined, mcount, rcount, own, chain>>
 
 Refines == phase = "resolved" => mres = rres
 
@@ -211,7 +238,7 @@ InitOnce ==
   /\ explicit = "none" /\ explicitViaLink = FALSE
   /\ phase = "once" /\ rres = NotFound /\ mres = NotFound
   /\ guard \in Guards /\ spelled = <<>> /\ parsed = {} /\ pragma = {} /\ defined = FALSE
-  /\ mcount = 0 /\ rcount = 0 /\ own = NoOwn
+  /\ mcount = 0 /\ rcount = 0 /\ own = NoOwn /\ chain = NoChain
 
 \* one inclusion (push_file + parse of the body) or command-line parse of the file under spelling s
 IncludeSpelled(s) ==
@@ -226,7 +253,7 @@ IncludeSpelled(s) ==
               /\ pragma' = IF guard = "pragma" THEN pragma \cup {k} ELSE pragma
               /\ defined' = (defined \/ guard = "guard")
               /\ mcount' = IF guard = "guard" /\ defined THEN mcount ELSE mcount + 1
-  /\ UNCHANGED <<present, cmd, form, noangles, incIsCwd, explicit, explicitViaLink, phase, rres, mres, guard, own>>
+  /\ UNCHANGED <<present, cmd, form, noangles, incIsCwd, explicit, explicitViaLink, phase, rres, mres, guard, own, chain>>
 
 OnceOnly == phase = "once" => mcount = rcount
 
@@ -239,6 +266,7 @@ InitOwn ==
   /\ guard \in Guards /\ spelled = <<>> /\ parsed = {} /\ pragma = {} /\ defined = FALSE
   /\ mcount = 0 /\ rcount = 0
   /\ own \in [cmdSpell : CmdSpells, reach : Reaches, order : Orders, cwdHas : BOOLEAN]
+  /\ chain = NoChain
 
 \* is the name find_include hands back for B (before make_canonical) already B's canonical name?
 FoundIsCanonical ==
@@ -247,7 +275,7 @@ FoundIsCanonical ==
     [] own.reach \in {"incDot", "incDotDot"} -> FALSE     \* ... + "/./b.h", ... + "/sub/../b.h"
     [] own.reach = "Iplain" -> TRUE                       \* make_absolute(-I directory) + "/b.h"
     [] own.reach = "Idotdot" -> TRUE                      \* make_absolute collapsed the ".." (no symbolic link crossed)
-    [] own.reach = "Isymlink" -> FALSE                    \* make_absolute does not resolve symbolic links
+    [] own.reach = "Isymlink" -> OptDirsPhysical          \* make_canonical (c17-fix-4) resolves the link, make_absolute did not
 \* is the name kept in _explicit_files B's canonical name?  ("dots" is collapsed lexically by make_absolute too)
 StoredIsCanonical == ExplicitByCanonical \/ own.cmdSpell # "symlink"
 \* handle_include_directive: _explicit_files.count(<canonical name | name as found>)
@@ -266,7 +294,7 @@ ResolveOwn ==
   /\ mcount' = Entries(Contrib(IncludeSrc)) /\ rcount' = Entries(Contrib("local"))
   /\ phase' = "owned"
   /\ UNCHANGED <<present, cmd, form, noangles, incIsCwd, explicit, explicitViaLink,
-                 guard, spelled, parsed, pragma, defined, own>>
+                 guard, spelled, parsed, pragma, defined, own, chain>>
 
 OwnRefines ==
   phase = "owned" =>
@@ -275,7 +303,83 @@ OwnRefines ==
     /\ guard # "none" => rcount = 1                 \* ... exactly once when protected
 
 ---------------------------------------------------------------------------
-Init == InitCase \/ InitOnce \/ InitOwn
-Next == Resolve \/ ResolveOwn \/ \E s \in Spellings : IncludeSpelled(s)
+(* PART 4: include chains *)
+\* the resolved directory of the k-th file of the chain, as a sequence of names (k stands for "d<k>")
+RECURSIVE RDir(_, _)
+RDir(w, k) ==
+  IF k = 0 THEN <<"MAIN">>
+  ELSE CASE w[k] = "cwd" -> <<"CWD", k>>
+         [] w[k] \in {"incdir", "dotdot"} -> Append(RDir(w, k - 1), k)
+         [] w[k] = "I" -> <<"I1", k>>
+         [] w[k] = "S" -> <<"S1", k>>
+         [] w[k] \in {"Ilink", "Ilinkdd"} -> <<"REAL", k>>
+\* dirname of the file's name as referenced ("d<k>/f<k>.h"; main.h: as given on the command line), read
+\* relative to the working directory
+RefDir(w, k) == IF k = 0 THEN <<"MAIN">> ELSE <<"CWD", k>>
+IncluderDir(w, k) == IF IncluderDirResolved THEN RDir(w, k) ELSE RefDir(w, k)
+\* the directory a -I/-S option denotes: LNK is a symbolic link to REAL; LNKDD is "lnk2/.." where lnk2 is a
+\* symbolic link to REAL/zz, i.e. REAL for the operating system and the link's own parent when ".." is
+\* collapsed textually
+PhysRoot(d) == IF d \in {"LNK", "LNKDD"} THEN "REAL" ELSE d               \* reference: what the OS says
+OptRoot(d) == IF d = "LNKDD" /\ ~OptDirsPhysical THEN "ROOT" ELSE PhysRoot(d)   \* mechanism
+ChainDepth == Len(chain.ways) + 1
+
+FirstOpt(s, P(_)) ==
+  LET hits == {i \in 1..Len(s) : P(s[i])} IN
+    IF hits = {} THEN "none" ELSE s[CHOOSE i \in hits : \A j \in hits : i <= j]
+
+\* an intermediate file "d<k>/f<k>.h" exists only in RDir(ways, k)
+FindMid(incdir, k, Root(_)) ==
+  LET w == chain.ways
+      target == RDir(w, k)
+      d == FirstOpt(chain.cmd, LAMBDA x : <<Root(x), k>> = target) IN
+  IF <<"CWD", k>> = target THEN [dir |-> "R", src |-> "local"]
+  ELSE IF Append(incdir, k) = target THEN [dir |-> "R", src |-> "alternate"]
+  ELSE IF d = "none" THEN NotFound ELSE [dir |-> "R", src |-> Kind(d)]
+
+\* "sib.h", included by the last file of the chain
+FindLeaf(incplace) ==
+  LET d == FirstOpt(chain.cmd, LAMBDA x : x \in chain.leafAt) IN
+  IF "CWD" \in chain.leafAt THEN [dir |-> "CWD", src |-> "local"]
+  ELSE IF incplace \in chain.leafAt THEN [dir |-> incplace, src |-> "alternate"]
+  ELSE IF d = "none" THEN NotFound ELSE [dir |-> d, src |-> Kind(d)]
+LastK == Len(chain.ways)
+SameDirs == RDir(chain.ways, LastK) = RefDir(chain.ways, LastK)
+MechLeafPlace == IF IncluderDirResolved \/ SameDirs THEN "RDIR" ELSE "REFDIR"
+
+InitChain ==
+  /\ present = {} /\ cmd = <<>> /\ form = "quote" /\ noangles = FALSE /\ incIsCwd = FALSE
+  /\ explicit = "none" /\ explicitViaLink = FALSE
+  /\ phase = "chain" /\ rres = NotFound /\ mres = NotFound
+  /\ guard = "none" /\ spelled = <<>> /\ parsed = {} /\ pragma = {} /\ defined = FALSE
+  /\ mcount = 0 /\ rcount = 0 /\ own = NoOwn
+  /\ \E w \in {<<a>> : a \in Ways} \cup {<<a, b>> : a \in Ways, b \in Ways} :
+     \E c \in Perms({"I1", "S1", "I2"}) :
+     \E la \in SUBSET LeafPlaces :
+       /\ (RDir(w, Len(w)) = RefDir(w, Len(w))) => "REFDIR" \notin la
+       /\ chain = [ways |-> w,
+                   cmd |-> (IF \E i \in 1..Len(w) : w[i] = "Ilink" THEN <<"LNK">> ELSE <<>>) \o c
+                           \o (IF \E i \in 1..Len(w) : w[i] = "Ilinkdd" THEN <<"LNKDD">> ELSE <<>>),
+                   leafAt |-> la, level |-> 1]
+
+\* one #include of the chain: the file at depth `level` is looked up from the file at depth level - 1
+ChainStep ==
+  /\ phase = "chain" /\ chain.level <= ChainDepth
+  /\ IF chain.level <= LastK
+       THEN /\ rres' = FindMid(RDir(chain.ways, chain.level - 1), chain.level, PhysRoot)
+            /\ mres' = FindMid(IncluderDir(chain.ways, chain.level - 1), chain.level, OptRoot)
+       ELSE /\ rres' = FindLeaf("RDIR")
+            /\ mres' = FindLeaf(MechLeafPlace)
+  /\ chain' = [chain EXCEPT !.level = @ + 1]
+  /\ UNCHANGED <<present, cmd, form, noangles, incIsCwd, explicit, explicitViaLink, phase,
+                 guard, spelled, parsed, pragma, defined, mcount, rcount, own>>
+
+ChainRefines == phase = "chain" => mres = rres
+\* the reference finds every intermediate file (the chains are well formed)
+ChainSane == (phase = "chain" /\ chain.level > 1 /\ chain.level <= ChainDepth) => rres.dir = "R"
+
+---------------------------------------------------------------------------
+Init == InitCase \/ InitOnce \/ InitOwn \/ InitChain
+Next == Resolve \/ ResolveOwn \/ ChainStep \/ \E s \in Spellings : IncludeSpelled(s)
 Spec == Init /\ [][Next]_vars
 =============================================================================
